@@ -13,7 +13,7 @@ DEFAULT_WEIGHTS = {
     'wait': 10, 'setflag': 5, 'settracked': 5, 'lock': 4, 'put': 4, 'get': 3, 'iter': 2,
     'close': 1, 'borrow': 4, 'resource': 2, 'transfer': 3, 'scope': 6, 'until': 6,
     'spawn': 2, 'cancel': 3, 'await_task': 3, 'raise': 1, 'ticker': 2, 'collect': 2,
-    'first': 2, 'guard': 1, 'graceful': 1, 'watch': 1.5, 'nested': 0,
+    'first': 2, 'guard': 1, 'graceful': 1, 'watch': 1.5, 'nested': 0, 'phases': 0,
 }
 
 
@@ -87,7 +87,7 @@ class Gen:
         weights = dict(self.weights)
         if depth >= self.max_depth:
             for key in ('lock', 'borrow', 'scope', 'until', 'ticker', 'collect', 'first', 'iter',
-                        'guard', 'graceful'):
+                        'guard', 'graceful', 'phases'):
                 weights[key] = 0
         if not self.tasks:
             weights['await_task'] = 0
@@ -308,6 +308,13 @@ class Gen:
             # some other block of the program: may have ended (refused), may be running
             step['scope'] = rng.choice(self.scope_ids)
         return step
+
+    def g_phases(self, depth):
+        rng = self.rng
+        # a flag of the program or a date that lies ahead
+        notif = {'k': 'flag', 'f': rng.randrange(self.objects['flags']), 'neg': False} \
+            if rng.random() < 0.6 else {'k': 'ge', 't': self.date()}
+        return {'op': 'phases', 'n': notif, 'body': self.steps(depth + 1, rng.randint(1, 3))}
 
     def g_nested(self, depth):
         return {'op': 'nested', 'd': self.rng.choice([0.5, 1, 3]),
